@@ -270,3 +270,106 @@ def transformer_symbols(names: Sequence[str], tags: Sequence, identities: Sequen
 
 def transformer_primitive(sdv, symbols: SymbolTable):
     return sdv.resolve(symbols).value_of_any_dependency(None).primitive(None)
+
+
+# --------------------------------------------------------------------------- K3b: simple contexts of the text matcher
+
+class _OneLine:
+    def __init__(self, text: str):
+        self._text = text
+
+    @property
+    def as_lines(self):
+        import contextlib
+
+        @contextlib.contextmanager
+        def cm():
+            yield iter([self._text + '\n'])
+
+        return cm()
+
+
+class TaggedText:
+    """In-memory model of a text matcher: one line, `l` followed by one `T` per transformation applied.
+    Offers what the text-matcher combinators (freeze), `-transformed-by` (nothing: the transformer gets the model)
+    and the line quantifiers (contents().as_lines) use."""
+
+    def __init__(self, tags=()):
+        self.tags = tuple(tags)
+
+    def freeze(self):
+        pass
+
+    def contents(self):
+        return _OneLine('l' + 'T' * len(self.tags))
+
+
+class TagTransformer(StringTransformer):
+    """The transformer bound to the symbol T: a transformation of a class unknown to exactly_lib; appends its tag."""
+
+    @property
+    def name(self) -> str:
+        return 'T'
+
+    def structure(self):
+        return renderers.header_only('T')
+
+    def transform(self, model):
+        return TaggedText(model.tags + ('T',))
+
+
+CTX_VERDICTS: Dict = {}   # leaf -> (verdict on an untransformed model, verdict on a transformed model); refilled per path
+CTX_LOG: List = []
+
+
+class CtxStubMatcher(xly.MatcherWTrace):
+    """A text matcher or line matcher of a class unknown to exactly_lib: logs (its name, the model it was asked
+    about); its verdict may depend on whether the model has been transformed."""
+
+    def __init__(self, name: str):
+        self._name = name
+
+    @property
+    def name(self) -> str:
+        return self._name
+
+    def structure(self):
+        return renderers.header_only(self._name)
+
+    def matches_w_trace(self, model):
+        if isinstance(model, tuple):
+            text = model[1].rstrip('\n')
+            seen = ('line', model[0], text)
+            transformed = 'T' in text
+        else:
+            seen = ('text', model.tags)
+            transformed = len(model.tags) > 0
+        v = bool(CTX_VERDICTS[self._name][1 if transformed else 0])
+        CTX_LOG.append((self._name, seen))
+        return xly.MatchingResult(v, renderers.Constant(xly.tree.Node(self._name, v, (), ())))
+
+
+_CTX_SYMBOLS = []
+_CTX_PRIMS: Dict = {}
+
+
+def ctx_symbols(text_names: Sequence[str], line_names: Sequence[str]) -> SymbolTable:
+    if not _CTX_SYMBOLS:
+        from exactly_lib.impls.types.string_transformer import sdvs
+        d = {'T': SymbolContainer(sdvs.StringTransformerSdvConstant(TagTransformer()), ValueType.STRING_TRANSFORMER, None)}
+        for n in text_names:
+            d[n] = xly.matcher_symbol(CtxStubMatcher(n), ValueType.STRING_MATCHER)
+        for n in line_names:
+            d[n] = xly.matcher_symbol(CtxStubMatcher(n), ValueType.LINE_MATCHER)
+        _CTX_SYMBOLS.append(xly.symbol_table(d))
+    return _CTX_SYMBOLS[0]
+
+
+def ctx_primitive(sdv, text_names, line_names):
+    """Primitive of a text-matcher sdv (real resolution chain), leaves read CTX_VERDICTS when asked; cached per sdv.
+    Call inside concrete()."""
+    r = _CTX_PRIMS.get(id(sdv))
+    if r is None:
+        r = (sdv, matcher_primitive(sdv, ctx_symbols(text_names, line_names)))
+        _CTX_PRIMS[id(sdv)] = r
+    return r[1]
